@@ -9,6 +9,9 @@
 //!                                        (`*`: all 256 values, one fresh receiver pair per value)
 //!   S <pkt|all> <len> ; V .. ; O ..      the session with the symbol of one / every object packet resized to <len> bytes
 //!   W <n> <k>                            k copies of the follow-up's own FDT packet with its last n bytes damaged; no cleanup() before the follow-up
+//!   U <j> <bump>                         the follow-up's FDT packet, then its j-th object packet with the source block number raised by <bump>
+//!                                        (out of range: rejected, the object fails); receivers keep a list of failed objects
+//!                                        (max_objects_error = 8); no cleanup() before the follow-up
 //!   X <cp> <keep> ; V .. ; O ..          after every object packet a copy with Codepoint <cp>, cut <keep> bytes after the header
 //!   Z <seed> <nmut> ; V .. ; O ..        seeded field-aware mutation sequence applied to the session
 //!   G <hex> <hex> ...                    explicit datagram sequence (replays, minimised failures)
@@ -263,6 +266,8 @@ fn res_char(r: Option<flute::error::Result<()>>) -> char {
 thread_local! {
     /// W lines: the follow-up session is pushed right after the garbage, without the cleanup() in between
     static NO_CLEANUP: std::cell::Cell<bool> = std::cell::Cell::new(false);
+    /// U lines: Config::max_objects_error of the receivers (0 = default configuration)
+    static MAX_ERR: std::cell::Cell<usize> = std::cell::Cell::new(0);
 }
 
 fn run_target(multi: bool, garbage: &[&[u8]]) -> TargetOut {
@@ -270,10 +275,14 @@ fn run_target(multi: bool, garbage: &[&[u8]]) -> TargetOut {
     let col = Rc::new(RefCell::new(Col::default()));
     let builder = Rc::new(ColBuilder { sh: col.clone() });
     let h0 = crate::live_bytes();
+    let rcfg = match MAX_ERR.with(|c| c.get()) {
+        0 => None,
+        n => Some(flute::receiver::Config { max_objects_error: n, ..Default::default() }),
+    };
     let mut t = if multi {
-        Target::Multi(MultiReceiver::new(builder, None, false))
+        Target::Multi(MultiReceiver::new(builder, rcfg, false))
     } else {
-        Target::Single(Receiver::new(&ep, 1, builder, None))
+        Target::Single(Receiver::new(&ep, 1, builder, rcfg))
     };
     let now = t_ms(1000);
     let mut res = String::with_capacity(garbage.len());
@@ -1142,6 +1151,23 @@ fn expand(input: &str) -> Option<(Vec<Vec<u8>>, Vec<bool>, Vec<String>)> {
             }
             Some((vec![d; k.max(1)], vec![false; k.max(1)], log))
         }
+        "U" => {
+            // the follow-up's FDT packet (valid), then its <j>-th object packet with the SBN of its FEC payload id
+            // raised by <bump>: no such block, Receiver::push answers Err and the object is marked failed
+            let j: usize = head.get(1)?.parse().ok()?;
+            let bump: u8 = head.get(2)?.parse().ok()?;
+            let (fdt, objp) = FOLLOWUP.with(|f| {
+                let fdt = f.pkts.iter().find(|p| matches!(catch(|| flute::core::alc::parse_alc_pkt(p)), Some(Ok(ref q)) if q.lct.toi == 0)).cloned();
+                let objs: Vec<Vec<u8>> = f.pkts.iter().filter(|p| matches!(catch(|| flute::core::alc::parse_alc_pkt(p)), Some(Ok(ref q)) if q.lct.toi != 0)).cloned().collect();
+                (fdt, objs.get(j % objs.len().max(1)).cloned())
+            });
+            let fdt = fdt?;
+            let mut d = objp?;
+            let off = flute::core::alc::parse_alc_pkt(&d).ok()?.data_alc_header_offset;
+            // first two bytes of every payload id used here: the source block number (No-Code, RS28: 16 / 24 bits)
+            d[off + 1] = d[off + 1].wrapping_add(bump);
+            Some((vec![fdt, d], vec![false, false], log))
+        }
         "X" => {
             // codec cross-over: after every object packet, a copy of it whose Codepoint is replaced by <cp>
             // and which is cut <keep> bytes after the LCT header (the object's OTI is known by then, so the
@@ -1248,15 +1274,16 @@ pub fn eval(input: &str) -> String {
     if secs[0][0] == "Y" && secs[0].get(3).copied() == Some("*") {
         return eval_y_all(&secs);
     }
-    NO_CLEANUP.with(|c| c.set(secs[0][0] == "W"));
+    NO_CLEANUP.with(|c| c.set(secs[0][0] == "W" || secs[0][0] == "U"));
+    MAX_ERR.with(|c| c.set(if secs[0][0] == "U" { 8 } else { 0 }));
     let (seq, same, log) = match catch(|| expand(input)) {
         Some(Some(x)) => x,
-        Some(None) => return if ["Y", "Z", "S", "X"].contains(&secs[0][0]) { "NOSESSION".into() } else { "BAD".into() },
+        Some(None) => return if ["Y", "Z", "S", "X", "U"].contains(&secs[0][0]) { "NOSESSION".into() } else { "BAD".into() },
         None => return "GENPANIC".into(),
     };
     let refs: Vec<&[u8]> = seq.iter().map(|d| d.as_slice()).collect();
     let mut out = run_sequence(&refs);
-    if ["Y", "Z", "S", "X", "W"].contains(&secs[0][0]) {
+    if ["Y", "Z", "S", "X", "W", "U"].contains(&secs[0][0]) {
         let ds: Vec<String> = seq.iter().zip(same.iter()).map(|(d, s)| if *s { "=".to_string() } else { hex(d) }).collect();
         out.push_str(&format!(" D={}", if ds.is_empty() { "-".to_string() } else { ds.join(",") }));
         if !log.is_empty() {
@@ -1404,6 +1431,15 @@ fn gen(args: &Args, emit: &mut dyn FnMut(String)) {
         for k in [1usize, 3] {
             if mine(&mut idx) {
                 emit(format!("W {} {}", n, k));
+            }
+        }
+    }
+    // 2e. a follow-up object put in error by a packet of its own with an impossible block number, receivers
+    //     that remember failed objects: the follow-up (which restarts the object with its first symbol) is delivered
+    for j in 0..8usize {
+        for bump in [5u8, 100] {
+            if mine(&mut idx) {
+                emit(format!("U {} {}", j, bump));
             }
         }
     }
